@@ -628,7 +628,8 @@ def check_rates(case):
         else:
             lf.set_param_rule(n, init=numpy.array(v) if isinstance(v, list) else v)
     try:
-        lf.set_expm(ex)
+        if ex != "default":
+            lf.set_expm(ex)
     except (ArithmeticError, numpy.linalg.LinAlgError):
         if ex in ("eigen", "checked"):
             raise Refusal(ex)
